@@ -475,7 +475,7 @@ func escapeText(s string) string {
 		if i+1 < len(s) && s[i] == '{' && s[i+1] == '{' {
 			end := strings.Index(s[i+2:], "}}")
 			if end != -1 {
-				b.WriteString(s[i : i+2+end+2])
+				writeMustache(&b, s[i:i+2+end+2])
 				i += 2 + end + 2
 				continue
 			}
@@ -493,6 +493,27 @@ func escapeText(s string) string {
 		i++
 	}
 	return b.String()
+}
+
+// writeMustache writes a {{ ... }} expression. Its operators stay readable (a < b, a && b),
+// except where the HTML parser would read markup into them: a '<' that is followed by a
+// letter, '/', '!' or '?' opens a tag, and an '&' that is followed by a letter or '#' may
+// start a character reference.
+func writeMustache(b *strings.Builder, m string) {
+	for i := 0; i < len(m); i++ {
+		next := byte(' ')
+		if i+1 < len(m) {
+			next = m[i+1]
+		}
+		switch {
+		case m[i] == '<' && (isASCIILetter(next) || next == '/' || next == '!' || next == '?'):
+			b.WriteString("&lt;")
+		case m[i] == '&' && (isASCIILetter(next) || next == '#'):
+			b.WriteString("&amp;")
+		default:
+			b.WriteByte(m[i])
+		}
+	}
 }
 
 // trimRawContent trims leading and trailing blank lines from raw content
